@@ -320,3 +320,23 @@ B("C10", "network.ip built outside parse_ip", PATHF, "                    if is_
 N("C10", "validator result bound to a variable first", NET, "        if not is_domain(domain) or len(domain) < 7:\n            continue\n", "        valid = is_domain(domain)\n        if not valid or len(domain) < 7:\n            continue\n")
 N("C10", "unreserved test rewritten with in", NET, 'byte in (b"-", b".", b"_", b"~"):', 'byte in b"-._~":')
 N("C10", "length test flipped", NET, "        if not is_domain(domain) or len(domain) < 7:\n", "        if 7 > len(domain) or not is_domain(domain):\n")
+
+# ------------------------------------------------------------------ C11
+FN = D + "filename.py"
+B("C11", "TLD {2,18} -> {2,10}", NET, "[a-z]{2,18})(?![a-z1-9.(=_-])", "[a-z]{2,10})(?![a-z1-9.(=_-])", "R1-containment")
+B("C11", "octet \\d{1,3} -> \\d{2,3}", NET, '_OCTET_RE = rb"(?:0x0*[a-f0-9]{1,2}|0*\\d{1,3})"', '_OCTET_RE = rb"(?:0x0*[a-f0-9]{1,2}|0*\\d{2,3})"', "R1-containment")
+B("C11", "look-behind gains a space", NET, 'DOMAIN_RE = rb"(?i)(?<![-\\w.\\\\_])', 'DOMAIN_RE = rb"(?i)(?<![-\\w.\\\\_ ])', "R3-anchors")
+B("C11", "URL_RE drops ftp", NET, 'rb"(?i)(?:ftp|https?)://"  # scheme', 'rb"(?i)(?:https?)://"  # scheme', "R1-containment")
+B("C11", "extra content filter in find_domains", NET, "        if domain_is_false_positive(domain):\n            continue\n", "        if domain_is_false_positive(domain):\n            continue\n        if b\"test\" in domain:\n            continue\n", "R5-filters")
+B("C11", "find_library label swapped back", FN, "return regex_hits(LIBRARY_TYPE, LIBRARY_RE, data)", "return regex_hits(EXECUTABLE_TYPE, LIBRARY_RE, data)", "R6-labels")
+B("C11", "version filter loses its guard", NET, "        if offset >= 0 and re.match(rb'[\\x00=\\s\"]+$', data[offset + 6 : start]):", "        if re.match(rb'[\\x00=\\s\"]+$', data[offset + 6 : start]):", "R5-filters")
+B("C11", "broadcast filter widened", NET, 'if ip.endswith((b".0", b".255")):', 'if ip.endswith((b".0", b".255", b".1")):', "R5-filters")
+B("C11", "domain hit from group 1 span", NET, "        out.append(match_to_hit(DOMAIN_TYPE, match))\n", "        out.append(Node(DOMAIN_TYPE, match.group(), \"\", match.start(), match.end() - 1))\n", "R4-exact-span")
+B("C11", "URL tail class admits trailing dot", NET, "[\\w!#-&(*+\\-/:=@?~])?)?", "[\\w!#-&(*+\\-/:=@?~])?)?+", "R1-containment")
+B("C11", "EXECUTABLE_RE requires a lower-case extension", FN, 'EXECUTABLE_RE = rb"(?i)\\b\\w+[.]exe\\b"', 'EXECUTABLE_RE = rb"\\b\\w+[.]exe\\b"', "R1-containment")
+B("C11", "email local part needs 5 chars", NET, 'EMAIL_RE = rb"(?i)\\b[a-z0-9._%+-]{3,}@("', 'EMAIL_RE = rb"(?i)\\b[a-z0-9._%+-]{5,}@("', "R1-containment")
+B("C11", "closing-brace scan starts at balance 0", D + "vba.py", "    balance = 1\n", "    balance = 0\n", "R7-createobject")
+B("C11", "closing-brace scan returns index of the paren", D + "vba.py", "    if balance == 0:\n        return index\n", "    if balance == 0:\n        return index - 1\n", "R7-createobject")
+B("C11", "IP trail assertion vetoes quotes", NET, '+ _OCTET_RE + rb"(?![\\w.-])"', '+ _OCTET_RE + rb"(?![\\w.\\"-])"', "R3-anchors")
+N("C11", "equal-language regex rewrite", NET, '_OCTET_RE = rb"(?:0x0*[a-f0-9]{1,2}|0*\\d{1,3})"', '_OCTET_RE = rb"(?:0x0*[0-9a-f][0-9a-f]?|0*[0-9]{1,3})"')
+N("C11", "filters merged", NET, "        if not is_domain(domain) or len(domain) < 7:\n            continue\n        if domain_is_false_positive(domain):\n            continue\n", "        if not is_domain(domain) or len(domain) < 7:\n            continue\n        fp = domain_is_false_positive(domain)\n        if fp:\n            continue\n")
